@@ -258,6 +258,11 @@ def interpretCrop : Item → Except Err (Option Int × Option Int)
   | .slice a b c => if c.isSome then .error .index else .ok (a, b)
   | .int i => .ok (some i, some (i + 1))
 
+/-- A missing item of the tuple is `slice(None)`. -/
+def cropOf : Option Item → Except Err (Option Int × Option Int)
+  | some it => interpretCrop it
+  | none => .ok (none, none)
+
 def Stack.frameItem (s : Stack) : Item → Except Err Stack
   | .slice a b c => s.sliceFrames a b c
   | .int i => s.index i
@@ -269,12 +274,8 @@ def Stack.getitemTuple (s : Stack) (items : List Item) : Except Err Stack :=
   | f :: rest =>
     if rest.length > 2 then .error .index
     else do
-      let rows ← match rest[0]? with
-        | some it => interpretCrop it
-        | none => pure (none, none)
-      let cols ← match rest[1]? with
-        | some it => interpretCrop it
-        | none => pure (none, none)
+      let rows ← cropOf rest[0]?
+      let cols ← cropOf rest[1]?
       let r ← s.roi.crop cols.1 cols.2 rows.1 rows.2
       let t ← s.frameItem f
       pure { t with roi := r }
@@ -361,6 +362,167 @@ def Stack.ofFile {α} (f : File α) : Stack :=
   let w := ((f.pages.head?.bind fun p => p.img.head?).map List.length).getD 0
   ⟨0, f.pages.length, 1, ⟨0, w, 0, h⟩⟩
 
+/-! ### 5. the `"Exposure time (ms)"` key: ns → float64 ms → ns -/
+
+/-- Unit in the last place of float64 at `x` (53-bit significand, subnormals below `2^-1022`). -/
+def ulpF64 (x : Rat) : Rat := pow2 (max (ilog2 x) (-1022) - 52)
+
+/-- One IEEE double operation on an exact result `x` inside the finite range: nearest multiple of the ulp, ties to
+    even (also the reading of a decimal literal and `np.int64 → float64`). -/
+def roundF64 (x : Rat) : Rat :=
+  if x = 0 then 0 else (roundHalfEven (x / ulpF64 x) : Rat) * ulpF64 x
+
+/-- The literal `1e-6` of `export_tiff`. -/
+def c1em6 : Rat := roundF64 (1 / 1000000)
+
+/-- `export_tiff`: one entry of `np.diff(np.vstack(ranges), axis=1).squeeze() * 1e-6` — the int64 difference is
+    converted to float64, then multiplied by the double `1e-6`. -/
+def exposureMs (e : Int) : Rat := roundF64 (roundF64 (e : Rat) * c1em6)
+
+/-- `exposure_times` of `export_tiff`: `vstack` → `(n, 2)`, `diff(axis=1)` → `(n, 1)`, `squeeze` → `(n,)` or `()`,
+    `atleast_1d` → `(n,)`: one double per range. -/
+def exposureTimesMs (ranges : List (Int × Int)) : List Rat := ranges.map fun r => exposureMs (r.2 - r.1)
+
+/-- `TiffFrame.exposure_timestamp_range`: `int(np.round(1e6 * json["Exposure time (ms)"]))` (`np.round` of a double
+    is round-half-even to an integral double). -/
+def exposureNs (x : Rat) : Int := roundHalfEven (roundF64 (1000000 * x))
+
+/-- Opening the written file again, through the float key: the stop of the exposure is
+    `start + int(round(1e6 * (ns * 1e-6)))`. -/
+def readBackF {α} (out : List (OutPage α)) : File α :=
+  ⟨out.map fun o => ⟨o.start, o.stop, o.start + exposureNs (exposureMs o.exposure), o.img⟩, false⟩
+
+/-! ### 6. `Kymo._tiff_timestamp_ranges` -/
+
+/-- `Kymo._tiff_timestamp_ranges`: `ts = np.array(line_timestamp_ranges(...))`, one frame `(np.min(ts), np.max(ts))`
+    over ALL starts and stops (`none`: NumPy raises `ValueError` on an empty array). -/
+def kymoRange (lines : List (Int × Int)) : Option (Int × Int) :=
+  match lines.flatMap fun r => [r.1, r.2] with
+  | [] => none
+  | x :: xs => some (xs.foldl (fun m y => if y < m then y else m) x, xs.foldl (fun m y => if m < y then y else m) x)
+
+/-! ### 7. typed selection programs -/
+
+/-- One selection step of the public API. -/
+inductive Op where
+  | slice (a b c : Option Int)          -- `stack[a:b:c]`
+  | index (i : Int)                     -- `stack[i]`
+  | crop (x0 x1 y0 y1 : Option Int)     -- `stack.crop_by_pixels(x0, x1, y0, y1)`
+  | tuple (items : List Item)           -- `stack[frames, rows, columns]`
+  | dataset (s0 s1 st : Int)            -- `ImageStack.from_dataset(src, name, s0, s1, st)` (private bookkeeping)
+deriving Repr, DecidableEq
+
+def Stack.applyOp (s : Stack) : Op → Except Err Stack
+  | .slice a b c => s.sliceFrames a b c
+  | .index i => s.index i
+  | .crop x0 x1 y0 y1 => s.cropPixels x0 x1 y0 y1
+  | .tuple items => s.getitemTuple items
+  | .dataset a b c => .ok { s with s0 := a, s1 := b, st := c }
+
+/-- A chain of selections; the first refusal ends it. -/
+def Stack.run : Stack → List Op → Except Err Stack
+  | s, [] => .ok s
+  | s, op :: rest =>
+    match s.applyOp op with
+    | .error e => .error e
+    | .ok s' => Stack.run s' rest
+
+/-! ### 8. `TiffExport.export_tiff` as a whole (validation, cast, per-page tags) -/
+
+/-- `cast_image` on the whole 3-D or 4-D array of frames: ONE min / max test over all frames, then element-wise. -/
+def castFrames (d : DType) (clip : Bool) (frames : List (List Rat)) : Except Err (List (List Rat)) :=
+  match listMin frames.flatten, listMax frames.flatten with
+  | some lo, some hi =>
+    if lo < d.lo ∨ d.hi < hi then
+      if clip then .ok (frames.map fun fr => (fr.map (clipTo d.lo d.hi)).map (astype d))
+      else .error .runtime
+    else .ok (frames.map fun fr => fr.map (astype d))
+  | _, _ => .error .value
+
+/-- One written page: the DateTime tag, the double behind `"Exposure time (ms)"`, the (flattened) pixels. -/
+structure TiffPage where
+  dt : List Char
+  ms : Rat
+  img : List Rat
+deriving Repr, DecidableEq
+
+/-- `frames = cast_image(frames, dtype, clip) if dtype else frames`. -/
+def framesWritten (dtype : Option DType) (clip : Bool) (frames : List (List Rat)) : Except Err (List (List Rat)) :=
+  match dtype with
+  | none => .ok frames
+  | some d => castFrames d clip frames
+
+/-- `export_tiff(filename, dtype, clip)` given what the four `_tiff_*` hooks return: `RuntimeError` when there are no
+    timestamp ranges (checked first), then the cast (`dtype=None`: frames as they are), then
+    `np.vstack(exposure ranges)` (`ValueError` on an empty list), then one page per element of
+    `zip(frames, frame_timestamp_ranges, exposure_times)` — `zip` stops at the shortest. -/
+def exportTiff (dtype : Option DType) (clip : Bool) (frames : List (List Rat)) (dead exp : List (Int × Int)) :
+    Except Err (List TiffPage) :=
+  if dead.length = 0 then .error .runtime
+  else
+    match framesWritten dtype clip frames with
+    | .error e => .error e
+    | .ok fr =>
+      if exp.length = 0 then .error .value
+      else .ok ((fr.zip (dead.zip (exposureTimesMs exp))).map fun t => ⟨encodeRange t.2.1.1 t.2.1.2, t.2.2, t.1⟩)
+
+/-! ### 9. the Software tag and the detection of legacy (Pylake < 1.3.2) files -/
+
+/-- `str.lower()` on ASCII. -/
+def lowerAscii (c : Char) : Char := if 65 ≤ c.toNat ∧ c.toNat ≤ 90 then Char.ofNat (c.toNat + 32) else c
+
+/-- `pat in s` for Python strings: is `pat` a prefix of some suffix? -/
+def hasSub (pat : List Char) : List Char → Bool
+  | [] => pat.isEmpty
+  | c :: cs => pat.isPrefixOf (c :: cs) || hasSub pat cs
+
+/-- `ImageStack._tiff_writer_kwargs()["software"]`: append `Pylake v<version>` unless some spelling of "pylake" is
+    already there. -/
+def softwareOut (sw ver : List Char) : List Char :=
+  if hasSub "pylake".toList (sw.map lowerAscii) then sw
+  else sw ++ (if sw.length > 0 then ", ".toList else []) ++ "Pylake v".toList ++ ver
+
+/-- `ImageDescription._legacy_exposure`: `"Pylake" in software and "Exposure time (ms)" not in json`. -/
+def legacyExposure (sw : List Char) (hasKey : Bool) : Bool := hasSub "Pylake".toList sw && !hasKey
+
+/-! ### 10. alignment status and the keys of `ImageDescription.for_export` -/
+
+def c0Key : List Char := "Channel 0 alignment".toList
+def c1Key : List Char := "Channel 1 alignment".toList
+def c2Key : List Char := "Channel 2 alignment".toList
+def a0Key : List Char := "Applied channel 0 alignment".toList
+def a1Key : List Char := "Applied channel 1 alignment".toList
+def a2Key : List Char := "Applied channel 2 alignment".toList
+def pylakeKey : List Char := "Pylake".toList
+
+inductive AlignStatus where
+  | notApplicable | ready | applied | missing
+deriving Repr, DecidableEq
+
+/-- `re.search(r"^Applied (.*)channel(.*)$", key)` (keys without line breaks). -/
+def appliedKey (k : List Char) : Bool := "Applied ".toList.isPrefixOf k && hasSub "channel".toList (k.drop 8)
+
+/-- `ImageDescription.__init__`: the alignment status from the colour type and the JSON keys. -/
+def alignStatus (isRgb : Bool) (keys : List (List Char)) : AlignStatus :=
+  if !isRgb then .notApplicable
+  else if keys.contains c0Key then .ready
+  else if keys.any appliedKey then .applied
+  else .missing
+
+/-- `Alignment.do_alignment`. -/
+def doAlignment (requested : Bool) (st : AlignStatus) : Bool := st == .ready && requested
+
+/-- `out[f"Applied channel {j} alignment"] = out.pop(f"Channel {j} alignment")` for `j` in 0..2. -/
+def renameKey (k : List Char) : List Char :=
+  if k = c0Key then a0Key else if k = c1Key then a1Key else if k = c2Key then a2Key else k
+
+/-- `out["Pylake"] = {...}`: the key is there afterwards, once. -/
+def addPylake (ks : List (List Char)) : List (List Char) := if ks.contains pylakeKey then ks else ks ++ [pylakeKey]
+
+/-- The JSON keys of `ImageDescription.for_export` (as a list; the order of a dict is not modelled). -/
+def forExportKeys (isRgb requested : Bool) (keys : List (List Char)) : List (List Char) :=
+  addPylake (if doAlignment requested (alignStatus isRgb keys) then keys.map renameKey else keys)
+
 /-! ### protocol -/
 open Verif.Proto
 
@@ -385,32 +547,27 @@ def item? (s : String) : Option Item :=
   `s,a,b,c` frame slice   `i,k` integer index   `c,x0,x1,y0,y1` `crop_by_pixels`
   `g,<item>,…` tuple index with items `k`, `a:b` or `a:b:c`
   `z,s0,s1,st` `ImageStack.from_dataset(src, name, s0, s1, st)` on the same pages and ROI. -/
-def step (s : Stack) (op : String) : Option (Except Err Stack) :=
+def op? (op : String) : Option Op :=
   match op.splitOn "," with
   | ["s", a, b, c] => do
     let a ← optInt? a; let b ← optInt? b; let c ← optInt? c
-    some (s.sliceFrames a b c)
+    some (.slice a b c)
   | ["i", k] => do
     let k ← int? k
-    some (s.index k)
+    some (.index k)
   | ["c", a, b, c, d] => do
     let a ← optInt? a; let b ← optInt? b; let c ← optInt? c; let d ← optInt? d
-    some (s.cropPixels a b c d)
+    some (.crop a b c d)
   | "g" :: items => do
     let items ← items.mapM item?
-    some (s.getitemTuple items)
+    some (.tuple items)
   | ["z", a, b, c] => do
     let a ← int? a; let b ← int? b; let c ← int? c
-    some (.ok { s with s0 := a, s1 := b, st := c })
+    some (.dataset a b c)
   | _ => none
 
-def runProg : Stack → List String → Option (Except Err Stack)
-  | s, [] => some (.ok s)
-  | s, op :: rest =>
-    match step s op with
-    | none => none
-    | some (.error e) => some (.error e)
-    | some (.ok s') => runProg s' rest
+def runProg (s : Stack) (prog : List String) : Option (Except Err Stack) :=
+  (prog.mapM op?).map s.run
 
 /-- The synthetic raw image of page `p`: pixel `(r, c)` carries the identifier `(p·h + r)·w + c`. -/
 def idImage (h w p : Nat) : List (List Int) :=
@@ -435,9 +592,19 @@ def showOuts (l : List (OutPage Int)) : String := "[" ++ ";".intercalate (l.map 
   `c18.decode [codes]`    `_get_page_timestamps`: `a:b` or the error name
   `c18.roundtrip a b`     write the tag for `(a, b)`, then read it: `a:b` or the error name
   `c18.legacy [s…] [e…]`  `_frame_timestamps_from_exposure_timestamps`
+  `c18.expms [e,…]`       the doubles `export_tiff` writes behind "Exposure time (ms)" for exposures of `e` ns (`p/q`)
+  `c18.expns [p/q,…]`     `int(np.round(1e6 * x))` for each double `x` read from that key
+  `c18.exprt [e,…]`       write the key for `e` ns, read it back: the ns the reader gets
+  `c18.kymorange [s…] [e…]`  `Kymo._tiff_timestamp_ranges` from the line ranges: `a:b` or `ValueError`
+  `c18.exporttiff <none|u8|u16|f32> <clip> [frame;frame;…] [dead starts] [dead stops] [exp starts] [exp stops]`
+        the whole `export_tiff`: `ok [codes|p/q|v,…;…]` (DateTime characters, exposure double, pixels per page) or the error
+  `c18.software [codes] [version codes] <twice T/F>`  the Software tag `ImageStack.export_tiff` writes (after one / two exports)
+  `c18.islegacy [codes] <has exposure key T/F>`  `ImageDescription._legacy_exposure`
+  `c18.forexport <rgb> <align requested> <twice> [key;key;…]`  the JSON keys `for_export` writes (keys as character codes)
+  `c18.kymoexp [s…] [e…]`  the "Exposure time (ms)" of a kymograph from its line ranges without dead time: `[p/q]`
   `c18.export <h> <w> [starts] [stops] [expStops] <legacy T/F> <again T/F> op…`
         run the selection program on a fresh stack over these pages (raw pixels = identifiers), export;
-        with `again = T` the result is read back, opened as a fresh stack and exported a second time;
+        with `again = T` the result is read back (exposure through the float64 millisecond key), opened as a fresh stack and exported a second time;
         answer `[start:stop:exposure:HxW:id,id,…;…]` or the error name. -/
 def handle : List String → Option String
   | ["c18.cast", d, clip, img] => do
@@ -464,6 +631,52 @@ def handle : List String → Option String
     else match legacyRanges (s.zip e) with
       | some r => some (showRanges r)
       | none => some "IndexError"
+  | ["c18.expms", es] => do
+    let es ← intList? es
+    some (showRatList (es.map exposureMs))
+  | ["c18.expns", xs] => do
+    let xs ← ratList? xs
+    some (showIntList (xs.map exposureNs))
+  | ["c18.exprt", es] => do
+    let es ← intList? es
+    some (showIntList (es.map fun e => exposureNs (exposureMs e)))
+  | ["c18.kymorange", s, e] => do
+    let s ← intList? s; let e ← intList? e
+    if s.length ≠ e.length then none
+    else match kymoRange (s.zip e) with
+      | some r => some (toString r.1 ++ ":" ++ toString r.2)
+      | none => some "ValueError"
+  | ["c18.exporttiff", d, clip, frames, ds, de, es, ee] => do
+    let d ← if d == "none" then some none else (dtype? d).map some
+    let clip ← bool? clip
+    let frames ← ratListList? frames
+    let ds ← intList? ds; let de ← intList? de; let es ← intList? es; let ee ← intList? ee
+    if ds.length ≠ de.length ∨ es.length ≠ ee.length then none
+    else match exportTiff d clip frames (ds.zip de) (es.zip ee) with
+      | .ok pages => some ("ok [" ++ ";".intercalate (pages.map fun p =>
+          ",".intercalate (p.dt.map fun c => toString c.toNat) ++ "|" ++ showRat p.ms ++ "|" ++
+          ",".intercalate (p.img.map showRat)) ++ "]")
+      | .error e => some e.show
+  | ["c18.software", sw, ver, twice] => do
+    let sw ← chars? sw; let ver ← chars? ver; let twice ← bool? twice
+    let o := softwareOut sw ver
+    some (showChars (if twice then softwareOut o ver else o))
+  | ["c18.islegacy", sw, key] => do
+    let sw ← chars? sw; let key ← bool? key
+    some (showBool (legacyExposure sw key))
+  | ["c18.forexport", rgb, req, twice, keys] => do
+    let rgb ← bool? rgb; let req ← bool? req; let twice ← bool? twice
+    let keys ← listListOf? nat? keys
+    let ks := keys.map fun k => k.map Char.ofNat
+    let o := forExportKeys rgb req ks
+    let o := if twice then forExportKeys rgb req o else o
+    some (showListList (fun (c : Char) => toString c.toNat) o)
+  | ["c18.kymoexp", s, e] => do
+    let s ← intList? s; let e ← intList? e
+    if s.length ≠ e.length then none
+    else match kymoRange (s.zip e) with
+      | some r => some (showRatList [exposureMs (r.2 - r.1)])
+      | none => some "ValueError"
   | "c18.export" :: h :: w :: starts :: stops :: exps :: legacy :: again :: prog => do
     let h ← nat? h; let w ← nat? w
     let pages ← pages? h w starts stops exps
@@ -478,7 +691,7 @@ def handle : List String → Option String
       | .error e => some e.show
       | .ok out =>
         if again then
-          let f2 := readBack out
+          let f2 := readBackF out
           match exportPages (Stack.ofFile f2) f2 with
           | .error e => some e.show
           | .ok out2 => some (showOuts out2)
